@@ -150,7 +150,7 @@ func classOn(cur state.ClusterState, index uint64, cmd command.Command) (string,
 // asks for a specific class per position (rejection sampling over the generator, then a targeted
 // command).  gaps: Raft indexes are positions (false) or increasing with gaps (true).
 func buildLog(rep *kit.Report, rng *rand.Rand, n int, want []string, gaps bool) *refRun {
-	g := &gen{rng: rng}
+	g := &gen{rng: rng, theme: []string{"", "", "", "ops", "nodes"}[rng.Intn(5)]}
 	ref, err := fsm.New(&memStore{})
 	if err != nil {
 		rep.Infra("fsm.New: %v", err)
@@ -276,18 +276,24 @@ func (s *sut) view(st state.ClusterState) map[string]any {
 		"valid": st.Revision == 0 || st.Validate() == nil}
 }
 
+// proj: Snapshot() and the state file identified against the reference states, plus `same`: what
+// is published is, field for field (JSON of the states as they are, nothing re-normalised here),
+// what a restart would load from the state file.
 func (s *sut) proj() map[string]any {
 	var disk map[string]any
+	snap := s.sm.Snapshot(bg)
+	same := snap.Revision == 0
 	st, err := statefile.New(s.path).Load(bg)
 	switch {
 	case err == nil:
 		disk = s.view(st)
+		same = same || marshal(snap) == marshal(st)
 	case errors.Is(err, os.ErrNotExist):
 		disk = map[string]any{"sid": -1, "rev": 0, "app": 0, "valid": true}
 	default: // a state file that does not load is not a valid persisted state
 		disk = map[string]any{"sid": -9, "rev": 0, "app": 0, "valid": false}
 	}
-	return map[string]any{"snap": s.view(s.sm.Snapshot(bg)), "disk": disk}
+	return map[string]any{"snap": s.view(snap), "disk": disk, "same": same}
 }
 
 func (s *sut) apply(ev map[string]any) (map[string]any, error) {
